@@ -104,7 +104,7 @@ class DistributedPerLayerOptimizer(DPOptimizer):
         noise = _generate_noise(
             std=self.noise_multiplier * self.max_grad_norm,
             reference=p.summed_grad,
-            generator=None,
+            generator=self.generator,
             secure_mode=self.secure_mode,
         )
         p.grad = p.summed_grad + noise
